@@ -513,6 +513,29 @@ impl Runner {
         }
     }
 
+    /// Tags describing known-defect preconditions for an operation whose predicate can be
+    /// answered through a scalar index (see known_findings.jsonl KF-07/08/09).
+    pub fn history_tags(&self, op: &Op, extra_indexed: &[String]) -> String {
+        let pred = match op {
+            Op::Delete { pred } => Some(pred),
+            Op::Update { pred, .. } => Some(pred),
+            Op::Merge { by_source: BySource::DeleteIf(p), .. } => Some(p),
+            _ => None,
+        };
+        let mut pc = BTreeSet::new();
+        if let Some(p) = pred {
+            p.columns(&mut pc);
+        }
+        if let Op::Merge { use_index: true, .. } = op {
+            pc.insert("k".to_string());
+        }
+        let indexed = self.st.indices.iter().any(|i| pc.contains(&i.column)) || extra_indexed.iter().any(|c| pc.contains(c));
+        if !indexed {
+            return String::new();
+        }
+        format!("{}{}{}", if self.ctx.stable_row_ids { ":stable-row-ids" } else { "" }, if self.seen_col_rewrite { ":after-column-rewrite" } else { "" }, if self.seen_defer_remap { ":defer-remap" } else { "" })
+    }
+
     // ---- oracles -----------------------------------------------------------
 
     pub async fn o_scan(&mut self, prop: &str, what: &str) {
@@ -940,7 +963,7 @@ pub async fn run_seq(cfg: RunCfg) -> RunResult {
         let outcome = guarded(async {
             let changed = r.do_op(&op).await;
             let prop = prop_for_op(&op);
-            let what_s = op_sig_kind(&op, &r.st);
+            let what_s = format!("{}{}", op_sig_kind(&op, &r.st), r.history_tags(&op, &[]));
             let what = what_s.as_str();
             r.o_scan(prop, what).await;
             r.o_count(prop).await;
